@@ -51,8 +51,10 @@ func (p *prop) pipelineModule(c core.Case, w *core.Worker, res *core.Result, r *
 	}
 	defer m.Remove()
 	m.MustWrite("_deps/dep/go.mod", "module "+pdep+"\n\ngo 1.18\n")
+	declared := map[string]string{pmod + "/one": "one", pmod + "/two": "two"}
 	for i, d := range depDirs {
 		m.MustWrite(filepath.Join("_deps/dep", d, "x.go"), fmt.Sprintf("package p%d\n\ntype Thing struct{}\n\nfunc Make() Thing { return Thing{} }\n", i))
+		declared[pdep+"/"+d] = fmt.Sprintf("p%d", i)
 	}
 	// two packages; the second one is referenced from the first (a module-local import) and references itself
 	m.MustWrite("one/one.go", "// +gengo:imp\npackage one\n\ntype A struct{}\n\ntype B int\n")
@@ -130,6 +132,14 @@ func (p *prop) pipelineModule(c core.Case, w *core.Worker, res *core.Result, r *
 			name := ""
 			if im.Name != nil {
 				name = im.Name.Name
+			} else {
+				// no explicit name: the import binds the package's DECLARED name (std: last path element; the
+				// dependency packages are declared as p<i> whatever their directory is called)
+				name = declared[path]
+				if name == "" {
+					name = path[strings.LastIndex(path, "/")+1:]
+				}
+				res.Inc("pipeline_imports_without_explicit_name")
 			}
 			if _, dup := got[path]; dup {
 				res.Fail("pipeline-import-block", "duplicate path", fmt.Sprintf("%s imports %q twice", rel, path), nil)
